@@ -715,11 +715,11 @@ func zzC11HistString(hist []zzC11Op) string {
 }
 
 func zzC11TraceString(tr []int64) string {
-	s := ""
+	s := "["
 	for _, t := range tr {
 		s += strconv.Itoa(int(t)) + ","
 	}
-	return s
+	return s + "]"
 }
 
 func zzC11BoundSend(s *slip.Scope, inst *Instance, msg string) (out zzC11Result) {
